@@ -1205,6 +1205,13 @@ func ruleTileCompose(w *World, r *Report) {
 		if ok, _ := everyIterationPasses(loop, func(x *ssa.Call) bool { return x == hc[0] }, nil); !ok {
 			okLoop = false
 			skipped = true
+			// an iteration that appends something else instead (the ID's own single-zoom form when
+			// there is nothing to expand) does not drop its ID: not recognised, not a violation
+			if ok2, _ := everyIterationPasses(loop, func(x *ssa.Call) bool {
+				return x == hc[0] || (builtinName(x) == "append" && isStringSlice(x.Type()))
+			}, nil); ok2 {
+				skipped = false
+			}
 		}
 	}
 	// returned list = accumulation of spreads of hc results
